@@ -1,0 +1,92 @@
+//go:build verif
+
+package smtp
+
+// Re-exports of unexported functions for the verification harness in /verif.
+// This file is only compiled with -tags verif; it adds no behaviour.
+
+import (
+	"bufio"
+	"io"
+	"net/textproto"
+)
+
+func VerifParseCmd(line string) (string, string, error) { return parseCmd(line) }
+
+func VerifParseArgs(s string) (map[string]string, error) { return parseArgs(s) }
+
+func VerifParseHelloArgument(arg string) (string, error) { return parseHelloArgument(arg) }
+
+func VerifCutPrefixFold(s, prefix string) (string, bool) { return cutPrefixFold(s, prefix) }
+
+// VerifParsePath runs parser.parsePath (reverse = false) or
+// parser.parseReversePath (reverse = true) and also returns the unparsed rest.
+func VerifParsePath(s string, reverse bool) (string, string, error) {
+	p := parser{s: s}
+	var (
+		res string
+		err error
+	)
+	if reverse {
+		res, err = p.parseReversePath()
+	} else {
+		res, err = p.parsePath()
+	}
+	return res, p.s, err
+}
+
+func VerifParseMailbox(s string) (string, string, error) {
+	p := parser{s: s}
+	res, err := p.parseMailbox()
+	return res, p.s, err
+}
+
+func VerifEncodeXtext(s string) string           { return encodeXtext(s) }
+func VerifDecodeXtext(s string) (string, error)  { return decodeXtext(s) }
+func VerifEncodeUTF8AddrXtext(s string) string   { return encodeUTF8AddrXtext(s) }
+func VerifEncodeUTF8AddrUnitext(s string) string { return encodeUTF8AddrUnitext(s) }
+func VerifDecodeUTF8AddrXtext(s string) (string, error) {
+	return decodeUTF8AddrXtext(s)
+}
+func VerifDecodeTypedAddress(s string) (DSNAddressType, string, error) {
+	return decodeTypedAddress(s)
+}
+func VerifCheckNotifySet(v []DSNNotify) error { return checkNotifySet(v) }
+func VerifIsPrintableASCII(s string) bool     { return isPrintableASCII(s) }
+func VerifValidateLine(s string) error        { return validateLine(s) }
+func VerifDecodeSASLResponse(s string) ([]byte, error) {
+	return decodeSASLResponse(s)
+}
+
+func VerifToSMTPErr(code int, msg string) *SMTPError {
+	return toSMTPErr(&textproto.Error{Code: code, Msg: msg})
+}
+
+func VerifParseEnhancedCode(s string) (EnhancedCode, error) { return parseEnhancedCode(s) }
+
+func VerifDataErrorToStatus(err error) (int, EnhancedCode, string) {
+	return dataErrorToStatus(err)
+}
+
+// VerifNewDataReader builds a dataReader over an arbitrary bufio.Reader, with
+// the size limit newDataReader would configure for MaxMessageBytes = max.
+func VerifNewDataReader(r *bufio.Reader, max int64) io.Reader {
+	dr := &dataReader{r: r}
+	if max > 0 {
+		dr.limited = true
+		dr.n = max
+	}
+	return dr
+}
+
+// VerifUnlimit performs handleData's "r.limited = false" on a reader returned
+// by VerifNewDataReader.
+func VerifUnlimit(r io.Reader) { r.(*dataReader).limited = false }
+
+// VerifNewLineLimitReader builds a lineLimitReader.
+func VerifNewLineLimitReader(r io.Reader, limit int) io.Reader {
+	return &lineLimitReader{R: r, LineLimit: limit}
+}
+
+// VerifErrThreshold is the errThreshold constant.
+const VerifErrThreshold = errThreshold
